@@ -255,6 +255,9 @@ def _worker(a):
             continue
         seen.add(hsh)
         conv, audits, r, n = run_merge(b, cfg, scripts, order)
+        if "sample" not in res:
+            res["sample"] = {"services": cfg.services, "scripts": {str(c): [short(x) for x in scripts[c]] for c in ids}, "interleaving": order,
+                             "input_lines_head": list(run_merge.last_io[0][:30])}
         res["stats"]["merges_run"] += 1
         res["stats"]["steps"] += n
         res["stats"]["audits"] += len(audits)
@@ -332,6 +335,8 @@ def run(chk, tier, scale=1.0):
         for hsh in r["hashes"] or [r["hash"]]:
             chk.add_case(vcommon.h([r["hash"], hsh]), r["stats"]["client_conversations_compared"] > 0)
         chk.merge_counts(r["stats"])
+        if r.get("sample"):
+            chk.sample(r["sample"], limit=2)
         for w in r["inconc"]:
             chk.inconc(w)
         for (p, rule, sig, text, wit) in r["viol"][:2]:
